@@ -133,8 +133,19 @@ func (r *Report) Min(rule string, n int) {
 // Borrow runs another property's checker, keeping only the listed rules
 // (renamed as given).
 func (r *Report) Borrow(w *World, run func(*World, *Report), alias map[string]string) {
+	prev := r.ruleAlias
+	if prev != nil {
+		// nested borrow: the inner rules are renamed by alias first, then by the enclosing one
+		composed := map[string]string{}
+		for from, to := range alias {
+			if out, ok := prev[to]; ok {
+				composed[from] = out
+			}
+		}
+		alias = composed
+	}
 	r.ruleAlias = alias
-	defer func() { r.ruleAlias = nil }()
+	defer func() { r.ruleAlias = prev }()
 	run(w, r)
 }
 
